@@ -459,5 +459,8 @@ PROPS["C19"]["explanation"] += " (EMPTYATTR) the exit hdiff takes for a data set
 PROPS["C18"]["rules"] = PROPS["C18"]["rules"] + [rules_idioms.rule_annotation_length_kept]
 PROPS["C18"]["explanation"] = PROPS["C18"]["explanation"].replace(" Not decided (value-level)", " (ANNLEN) an annotation is written with the length ANannlen reported, not with the length enlarged for reading. Not decided (value-level)")
 
+PROPS["C18"]["rules"] = PROPS["C18"]["rules"] + [rules_idioms.rule_reserved_test_reachable]
+PROPS["C18"]["explanation"] = PROPS["C18"]["explanation"].replace(" Not decided (value-level)", " (RESERVED) the reserved-class filter is evaluated for non-empty class names. Not decided (value-level)")
+
 NOT_APPLICABLE = {}
 
